@@ -95,6 +95,7 @@ pub fn mal_class(m: &crate::wire::Malform) -> String {
         WsBeforeName { at, .. } => if *at == 0 { "ws-before-name/first-line".to_string() } else { "ws-before-name/obs-fold".to_string() },
         WsInName { .. } => "ws-in-name".to_string(),
         WsBeforeColon { .. } => "ws-before-colon".to_string(),
+        ContentLengthLinesDisagree { .. } => "content-length-lines-disagree".to_string(),
         BadContentLength { value, .. } => {
             let class = if value.is_empty() || value.trim().is_empty() {
                 "empty"
